@@ -381,11 +381,17 @@ func (g *Gen) batch() *baseapi.Batch {
 
 func (g *Gen) batchDenom(b *baseapi.Batch) string {
 	if g.hostile() && g.chance(0.15) {
-		switch g.R.Intn(3) {
+		switch g.R.Intn(6) {
 		case 0:
 			return b.Denom + "0"
 		case 1:
 			return b.Denom[:len(b.Denom)-1]
+		case 2:
+			return strings.ToLower(b.Denom) // identifiers are case-sensitive
+		case 3:
+			return b.Denom + " "
+		case 4:
+			return " " + b.Denom
 		}
 		return "C01-001-20200101-20210101-999"
 	}
